@@ -237,7 +237,14 @@ func genWrappers(t *rapid.T) []*Node {
 	return ws
 }
 
-var depthDist = []int{0, 1, 2, 3, 3, 3, 3, 4, 4, 4, 4, 5, 5, 5, 6, 6, 6, 7, 7, 8, 8}
+// genDepth: about a fifth shallow trees (depth 0-2), the rest depth 3-8; the
+// selector shrinks towards shallow.
+func genDepth(t *rapid.T) int {
+	if rapid.IntRange(0, 9).Draw(t, "deep?") < 2 {
+		return rapid.IntRange(0, 2).Draw(t, "depth")
+	}
+	return 3 + rapid.IntRange(0, 5).Draw(t, "depth")
+}
 
 // shape facts of a tree used for the non-trivial rule and the class histogram
 type shape struct {
